@@ -1,13 +1,13 @@
-\* 2 producers x 2 entries, capacity 1 (overflow), two flush requests, drop only, deadline may pass
+\* quick, C09 focus: two producers x 1 entry racing on a queue of capacity 1, no flush request, drop only, no deadline
 CONSTANTS
   Producers = {1, 2}
-  MaxApp = 2
+  MaxApp = 1
   Cap = 1
-  Flushers = {1}
+  Flushers = {}
   K = 1
   Results = {"ok"}
   AllowForget = FALSE
-  AllowTick = TRUE
+  AllowTick = FALSE
 SPECIFICATION Spec
 INVARIANTS TypeOK AbsInv ProducerOrder OnlyAppended NoLossAtEnd BoundedBatch NoParkWithWaiters JoinedMeansClosed
 PROPERTY Refines
